@@ -166,6 +166,37 @@ def mutant_selftest(cases, work):
     return len(picked)
 
 
+CANON_TWIN = {"opqC": "opq", "fnC": "fn", "fnaccC": "fnacc"}
+
+
+def fold_canonical(runs):
+    """The canonical-form shapes (opqC / fnC / fnaccC) observe a result through equal? / = / hashing
+    against the expected value read as a literal.  They add information only when the VALUE is right:
+    when the print-observed twin of the same tuple (opq / fn / fnacc, same configuration and mode)
+    fails as well, the result itself is wrong or the primitive panics, and the canonical observation
+    is the same failure seen through another window.  Its verdict then carries the twin's symptom, so
+    that it is attributed (or reported) exactly like the twin.  A canonical shape that fails while its
+    twin passes is a representation defect and is reported as it is."""
+    by_id = {}
+    for pruns in runs:
+        for cs, vs in pruns:
+            for c, v in zip(cs, vs):
+                by_id[c["id"]] = v
+    folded = 0
+    for pruns in runs:
+        for cs, vs in pruns:
+            for c, v in zip(cs, vs):
+                base = c["sh"].split("~")[0]
+                if v["pass"] or base not in CANON_TWIN:
+                    continue
+                twin_id = c["id"].replace(f"-{base}-", f"-{CANON_TWIN[base]}-", 1)
+                tv = by_id.get(twin_id)
+                if tv is not None and not tv["pass"]:
+                    v["why"] = tv["why"] + f" [canonical-form observation of the same wrong result: {v['why']}]"
+                    folded += 1
+    return folded
+
+
 def run(tier, seed, cfg_name=None):
     work = os.path.join(vlib.WORK, PROP)
     r = vlib.Result(PROP, tier, seed)
@@ -250,6 +281,7 @@ def run(tier, seed, cfg_name=None):
         mruns.append((cs, vs))
     annotate_crashes(mruns[0][1], mruns[1][1])
     runs.append(mruns)
+    fold_canonical(runs)
     disagree = 0
     passing = []
     for pruns in runs:
